@@ -9,7 +9,7 @@ use crate::sut::KEY_LENS;
 use std::collections::BTreeSet;
 
 fn nt(l: &BTreeSet<String>) -> bool {
-    has(l, "reopen") && (has(l, "index_removed") || has(l, "index_truncated") || has(l, "index_written_cleared") || has(l, "index_header_zeroed") || has(l, "stale_index"))
+    has(l, "reopen") && (has(l, "index_removed") || has(l, "index_truncated") || has(l, "index_written_cleared") || has(l, "index_header_zeroed") || has(l, "index_bytes_appended") || has(l, "stale_index"))
 }
 
 pub fn profile() -> Profile {
